@@ -16,9 +16,11 @@ of "registrations, duplicates, connections and sweeps" contains in the running s
 * `bulk` — a burst of `n` deliveries (track / register / markActive) for `n` distinct registrations;
   it is the list of the `n` base operations, nothing else (population size is a dimension of the
   histories, not new behaviour).
-* `sweepBegin` / `sweepEnd` — the two halves of ONE call of `removeOldRegistrations`: collection of
-  the expired indices under the read lock, and the loop of `removeRegistration` over the list that was
-  collected then; whatever other goroutines do in between are the operations in between.
+* `sweepBegin` / `sweepSome` / `sweepEnd` — ONE call of `removeOldRegistrations` in pieces: collection of
+  the expired indices under the read lock; the removal loop handling some of the collected indices
+  (in the order Go's map iteration happened to produce — the history says which); the loop handling
+  the rest.  Whatever other goroutines do in between are the operations in between, at any position
+  of the loop.
 -/
 open Std
 
@@ -32,13 +34,21 @@ inductive XOp
   | tunnelEnd (k : Key)
   | bulk (kind : Nat) (p pre : String) (start n tr now : Nat)
   | sweepBegin (now : Nat)
+  | sweepSome (ks : List Key)
   | sweepEnd
 deriving Repr
 
+/-- a sweep in progress: its clock reading, how many indices it collected, the collected indices its
+removal loop has not handled yet, and how many valid registrations it has removed so far -/
+structure Pending where
+  now : Nat
+  collected : Nat
+  todo : List Key
+  valid : Nat
+
 structure XSt where
   b : BSt := {}
-  /-- the sweep in progress: its clock reading and the indices it collected -/
-  pending : Option (Nat × List Key) := none
+  pending : Option Pending := none
   /-- tunnels that are open (one entry per running `Proxy` call) -/
   tunnels : List Key := []
 
@@ -70,13 +80,22 @@ def xstep (c : Cfg) (x : XSt) : XOp → XSt × List Out
   | .bulk kind p pre start n tr now =>
     let (b', outs) := bsteps c (bulkOps kind p pre start n tr now) x.b
     ({ x with b := b' }, outs.reverse)
-  | .sweepBegin now => ({ x with pending := some (now, collect c now x.b.st) }, [.ok])
+  | .sweepBegin now =>
+    let ks := collect c now x.b.st
+    ({ x with pending := some ⟨now, ks.length, ks, 0⟩ }, [.ok])
+  | .sweepSome ks =>
+    match x.pending with
+    | none => (x, [.err])
+    | some p =>
+      let ks' := ks.filter p.todo.contains
+      let (b', v) := bremoveAll c p.now ks' x.b
+      ({ x with b := b', pending := some { p with todo := p.todo.filter (fun k => !ks'.contains k), valid := p.valid + v } }, [.ok])
   | .sweepEnd =>
     match x.pending with
     | none => (x, [.err])
-    | some (now, ks) =>
-      let (b', v) := bremoveAll c now ks x.b
-      ({ x with b := b', pending := none }, [.swept ks.length v])
+    | some p =>
+      let (b', v) := bremoveAll c p.now p.todo x.b
+      ({ x with b := b', pending := none }, [.swept p.collected (p.valid + v)])
 
 def xrun (c : Cfg) (ops : List XOp) (x : XSt := xinit) : XSt :=
   ops.foldl (fun x o => (xstep c x o).1) x
